@@ -119,4 +119,24 @@ SPEC_UNSIGNED(u8, 8) SPEC_UNSIGNED(u16, 16) SPEC_UNSIGNED(u32, 32) SPEC_UNSIGNED
 #define SPEC_INF_f64 ((u64)0x7ff0000000000000ull)
 SPEC_FLOAT(f32, 32) SPEC_FLOAT(f64, 64)
 
+/* ---- C02 predicates / sign functions; C08 rounding ---------------------------------------------------- */
+#define SPEC_FLOAT2(T, W, SFX) \
+  static inline _Bool spec_iszero_##T(u##W a) { return (a & (u##W)~((u##W)1 << (W - 1))) == 0; } \
+  /* same number: identical, both NaN, or both zero (sign of a zero result unspecified) */ \
+  static inline _Bool spec_samenum_##T(u##W a, u##W b) { return spec_same_##T(a, b) || (spec_iszero_##T(a) && spec_iszero_##T(b)); } \
+  static inline u##W spec_ceil_##T(u##W a) { return F2U##W(ceil##SFX(U2F##W(a))); } \
+  static inline u##W spec_floor_##T(u##W a) { return F2U##W(floor##SFX(U2F##W(a))); } \
+  static inline u##W spec_trunc_##T(u##W a) { return F2U##W(trunc##SFX(U2F##W(a))); } \
+  static inline u##W spec_round_##T(u##W a) { return F2U##W(round##SFX(U2F##W(a))); } \
+  static inline u##W spec_nearbyint_##T(u##W a) { return F2U##W(nearbyint##SFX(U2F##W(a))); } \
+  static inline _Bool spec_is_flint_##T(u##W a) { T x = U2F##W(a); return spec_isfinite_##T(a) && trunc##SFX(x) == x; } \
+  static inline _Bool spec_is_even_##T(u##W a) { T x = U2F##W(a); T h = x * (T)0.5; return spec_isfinite_##T(a) && trunc##SFX(x) == x && trunc##SFX(h) == h; } \
+  static inline _Bool spec_is_odd_##T(u##W a) { return spec_is_flint_##T(a) && !spec_is_even_##T(a); } \
+  static inline _Bool spec_signok_##T(u##W r, u##W a) { T x = U2F##W(a), y = U2F##W(r); \
+    return x != x ? y != y : (x > 0 ? y == (T)1 : x < 0 ? y == (T)-1 : y == (T)0); } \
+  static inline _Bool spec_signnzok_##T(u##W r, u##W a) { T y = U2F##W(r); return (a >> (W - 1)) ? y == (T)-1 : y == (T)1; } \
+  static inline _Bool spec_minok_##T(u##W r, u##W a, u##W b) { T x = U2F##W(a), y = U2F##W(b), z = U2F##W(r); return (r == a || r == b) && z <= x && z <= y; } \
+  static inline _Bool spec_maxok_##T(u##W r, u##W a, u##W b) { T x = U2F##W(a), y = U2F##W(b), z = U2F##W(r); return (r == a || r == b) && z >= x && z >= y; }
+SPEC_FLOAT2(f32, 32, f) SPEC_FLOAT2(f64, 64, )
+
 #endif
